@@ -35,10 +35,15 @@ func GenTopo(t *rapid.T, maxIPsPerPool int) Topo {
 	np := rapid.IntRange(1, 4).Draw(t, "nPools")
 	cursor := map[int]uint32{}
 	var topo Topo
+	// in a quarter of the topologies all pools share one or two pod subnets (disjoint ranges, different node subnets)
+	sharedMode := np > 1 && rapid.IntRange(0, 3).Draw(t, "sharedSubnetMode") == 0
 	for i := 0; i < np; i++ {
 		ps := rapid.IntRange(0, len(podSubnets)-1).Draw(t, "podSubnet")
 		if rapid.IntRange(0, 2).Draw(t, "freshSubnet") > 0 {
 			ps = i % len(podSubnets)
+		}
+		if sharedMode {
+			ps = rapid.IntRange(0, 1).Draw(t, "sharedPodSubnet")
 		}
 		sub := podSubnets[ps]
 		p := PoolT{Subnet: sub.cidr, Gateway: sub.gw, Vlan: sub.vlan}
